@@ -545,6 +545,20 @@ def getslice(interp, st, o, lo, hi, step, node=None):
             if h.items is not None and isinstance(a, (int, type(None))) and isinstance(b, (int, type(None))):
                 yield st, st.alloc(HList(items=h.items[a:b], elem=h.elem))
                 return
+            if h.items is not None and len(h.items) <= 16:
+                # concrete-length list, symbolic bound(s): fork over the normalised positions
+                n = len(h.items)
+                na = 0 if a is None else norm_index(a, n)
+                nb = n if b is None else norm_index(b, n)
+                alts = []
+                for i in ([na] if isinstance(na, int) else range(n + 1)):
+                    for j in ([nb] if isinstance(nb, int) else range(n + 1)):
+                        g = conj(True if isinstance(na, int) else iterm(na) == i, True if isinstance(nb, int) else iterm(nb) == j)
+                        alts.append((g, (i, j)))
+                for s1, (i, j) in interp.alts(st, alts):
+                    if interp.feasible(s1):
+                        yield s1, s1.alloc(HList(items=list(s1.heap[o.addr].items[i:j]), elem=h.elem))
+                return
             seq, et = list_to_seq(h)
             n = z3.Length(seq)
             a = z3.IntVal(0) if a is None else iterm(norm_index(a, n))
@@ -636,7 +650,7 @@ def contains(interp, st, container, x, node=None):
     from .segs import VSegs, to_vbytes
     if isinstance(container, VSegs):
         container = to_vbytes(container)
-    if isinstance(x, VSegs):
+    if isinstance(x, VSegs) and isinstance(container, (VStr, VBytes)):
         x = to_vbytes(x)
     if isinstance(container, VChars):
         container = to_vstr(container)
